@@ -27,7 +27,15 @@ CHECK_DEADLOCK FALSE
 
 
 def key(s):
-    return (tuple(s["out"]["verdict"]), s["scn"]["items"], s["scn"]["force"], s["scn"]["lease"], s["scn"]["atomic"])
+    return (tuple(s["out"]["verdict"]), s["scn"]["items"], s["scn"]["force"], s["scn"]["lease"], s["scn"]["atomic"], s["scn"]["ra"] == 0)
+
+
+def prio(k):
+    # lease handling is where client logic is richest: a lease on a reference that is absent on the remote
+    # (deleted meanwhile) first -- so that the git witness sees it --, then the other lease keys, then the rest
+    if k[3] == "stale" and k[5]:
+        return 0
+    return 1 if k[3] != "none" else 2
 
 
 def run(ctx):
@@ -42,6 +50,7 @@ def run(ctx):
         strata.setdefault(key(s), []).append(s)
     keys = sorted(strata, key=repr)
     rnd.shuffle(keys)
+    keys.sort(key=prio)   # stable: shuffled within a priority class
     peers, bulk = (80, 2000) if ctx.thorough else (4, 120)
     want = peers + bulk
     picked = []
